@@ -745,3 +745,52 @@ def symlist_index(it, lst, x):        # noqa: F811  (range lists: arithmetic ins
             return pos
         raise PyRaise(it.make_exc('ValueError', ['x not in list']))
     return _symlist_index_general(it, lst, x)
+
+
+# ------------------------------------------------------------------------------------------ math.floor / math.ceil, np.linspace (floats)
+def _math_floor(it, args, kw):
+    v = args[0]
+    if not z3.is_expr(v):
+        import math
+        return math.floor(v)
+    if v.sort() == z3.IntSort():
+        return v
+    x = xl(v)
+    if it.truth(xreal.is_nan(x)):
+        raise PyRaise(it.make_exc('ValueError', ['cannot convert float NaN to integer']))
+    if it.truth(z3.Not(xreal.is_fin(x))):
+        raise PyRaise(it.make_exc('OverflowError', ['cannot convert float infinity to integer']))
+    return z3.ToInt(xreal.r(x))          # z3 ToInt is the floor
+
+
+EXTERNAL['math.floor'] = Builtin('math.floor', _math_floor)
+
+_prev_linspace = EXTERNAL['numpy.linspace'].fn
+LINSPACE_ASSUMPTION = 'np.linspace(a, b, num) returns num finite values inside [a, b] (a <= b finite), the first equal to a, the last (num >= 2) equal to b'
+
+
+def _np_linspace(it, args, kw):
+    """np.linspace with float ends / a symbolic number of samples: an array of `num` values inside [start, stop] with exact
+    ends (assumed contract).  Integer grids with a concrete number of samples stay with the np_model version (astype(int))."""
+    start, stop = args[0], args[1]
+    num = kw.get('num', args[2] if len(args) > 2 else 50)
+    if not (_is_floaty(start) or _is_floaty(stop)) and NP.conc(num) is not None:
+        return _prev_linspace(it, args, kw)
+    run = it.run
+    if not it.truth(NP.zi(num) >= 0):
+        raise PyRaise(it.make_exc('ValueError', ['Number of samples must be non-negative']))
+    run.assumed.add(LINSPACE_ASSUMPTION)
+    f = NP.fresh_fn(run, 'linspace', 1, xreal.XReal)
+    a, b = xl(start), xl(stop)
+    ok = z3.And(xreal.is_fin(a), xreal.is_fin(b), xreal.r(a) <= xreal.r(b))
+    n = NP.zi(num)
+    j = z3.Int('q!%d' % next(_uid))
+    inside = z3.And(xreal.is_fin(f(j)), xreal.r(a) <= xreal.r(f(j)), xreal.r(f(j)) <= xreal.r(b))
+    run.axiom(z3.ForAll([j], z3.Implies(z3.And(ok, j >= 0, j < n), inside), patterns=[f(j)]))
+    run.assume(z3.Implies(z3.And(ok, n >= 1), f(z3.IntVal(0)) == a))
+    run.assume(z3.Implies(z3.And(ok, n >= 2), f(n - 1) == b))
+    return NDArray((NP.norm(num),), 'float', lambda i: f(i))
+
+
+for _pkg in ('numpy', 'jax.numpy'):
+    EXTERNAL[_pkg + '.linspace'] = Builtin('np.linspace', _np_linspace)
